@@ -66,13 +66,15 @@ struct Scen {
     proxy_delay_ms: u64,
     reqs: Vec<ReqSpec>,
     chaos_pct: u8,
+    /// after every request has ended the connection is reset and the log is watched a little longer
+    close_after: bool,
 }
 
 impl Scen {
     fn to_json(&self) -> Value {
         json!({"seed": self.seed, "timeout_ms": self.timeout_ms, "max_size": self.max_size, "max_inbound": self.max_inbound,
             "target": format!("{:?}", self.target), "via_proxy": self.via_proxy, "proxy_chunk": self.proxy_chunk, "proxy_delay_ms": self.proxy_delay_ms,
-            "chaos_pct": self.chaos_pct,
+            "chaos_pct": self.chaos_pct, "close_after": self.close_after,
             "reqs": self.reqs.iter().map(|r| json!({"at_ms": r.at_ms, "api": r.api, "dial": r.dial, "size": r.size, "resp_len": r.resp_len,
                 "action": format!("{:?}", r.action), "cancel_after_ms": r.cancel_after_ms})).collect::<Vec<_>>()})
     }
@@ -101,6 +103,7 @@ impl Scen {
             proxy_chunk: v["proxy_chunk"].as_u64()? as usize,
             proxy_delay_ms: v["proxy_delay_ms"].as_u64()?,
             chaos_pct: v["chaos_pct"].as_u64()? as u8,
+            close_after: v["close_after"].as_bool().unwrap_or(false),
             reqs: v["reqs"]
                 .as_array()?
                 .iter()
@@ -189,11 +192,13 @@ struct RunOut {
     conn_events: Vec<(u64, bool)>,
     /// the unreachable peer connected by itself after all requests had ended
     late_connect: bool,
+    closed_after: bool,
 }
 
 async fn run_scenario(s: Scen, exec: ChaosExecutor, lag: LagMonitor) -> RunOut {
     let mut out = RunOut {
         late_connect: false,
+        closed_after: false,
         log: vec![],
         responder_seen: vec![],
         responder_done: vec![],
@@ -416,6 +421,15 @@ async fn run_scenario(s: Scen, exec: ChaosExecutor, lag: LagMonitor) -> RunOut {
     }
     // grace period to catch duplicate terminal events
     tokio::time::sleep(Duration::from_millis(300)).await;
+    // the connection is reset after every request has ended: nothing may be reported a second time
+    if s.close_after {
+        if let Some(p) = &proxy {
+            p.refuse_new(true);
+            p.kill_all();
+        }
+        tokio::time::sleep(Duration::from_millis(900)).await;
+        out.closed_after = true;
+    }
     // the peer that could not be reached connects by itself afterwards: requests that already
     // ended must stay ended (nothing stale may be sent on the new connection, no second event)
     if matches!(s.target, Target::Unknown | Target::Unreachable) {
@@ -508,6 +522,9 @@ fn check(rep: &mut Report, s: &Scen, o: &RunOut) {
         return;
     }
     rep.hit("scenarios_run");
+    if o.closed_after {
+        rep.hit("connection_reset_after_all_requests_ended");
+    }
     if o.late_connect {
         rep.hit("late_connects_after_failed_requests");
         // a request that had already failed must not reach the responder over the new connection
@@ -727,6 +744,7 @@ fn gen(rng: &mut Rng) -> Scen {
         proxy_delay_ms: *rng.pick(&[0u64, 0, 1, 20]),
         reqs,
         chaos_pct: *rng.pick(&[0u8, 5, 20]),
+        close_after: false,
     }
 }
 
@@ -817,6 +835,21 @@ pub fn run(ctx: &Ctx) -> Report {
             s.reqs = (0..2 + k)
                 .map(|i| ReqSpec { at_ms: i as u64, api: 0, dial: true, size: 64, resp_len: 32, action: Action::Answer, cancel_after_ms: None })
                 .collect();
+            v.push(s);
+        }
+        // directed: more requests waiting for one dial than the connection's command channel takes
+        // (256): every one of them ends exactly once, also after the connection is reset afterwards
+        if ctx.shard % 4 == 0 {
+            let mut s = gen(&mut rng);
+            s.target = Target::Known;
+            s.max_inbound = None;
+            s.via_proxy = true;
+            s.proxy_chunk = 0;
+            s.proxy_delay_ms = 0;
+            s.timeout_ms = s.timeout_ms.max(4000);
+            s.chaos_pct = 0;
+            s.close_after = true;
+            s.reqs = (0..300).map(|_| ReqSpec { at_ms: 0, api: 1, dial: true, size: 24, resp_len: 8, action: Action::Answer, cancel_after_ms: None }).collect();
             v.push(s);
         }
         v
